@@ -724,8 +724,12 @@ func (m *Machine) WhenQueue(tick Result) <-chan struct{} {
 	m.queueMx.Lock()
 	defer m.queueMx.Unlock()
 
-	// finish early
-	if m.queueTick >= uint64(tick) {
+	// finish early, but only for the past ticks: the mutation of the current
+	// one may be still executing (the subscriptions know if it has been
+	// processed), unless the queue is idle
+	if m.queueTick > uint64(tick) ||
+		(m.queueTick == uint64(tick) && !m.queueProcessing.Load()) {
+
 		return m.subs.Closed
 	}
 
